@@ -164,6 +164,18 @@ pub struct ExUtf8Error(std::str::Utf8Error);
     extract_struct(u, mp, "ProguardRecord", kind="enum")
     u.raw(contract("parser_model.rs"), "parser_model")
     u.raw(PRIMS, "prims")
+    # ParseError accessors (C05: "reported as errors carrying the offending line"): each returns its own field
+    PEI = r"impl ParseError<'_>"
+    u.raw(mp.impl_header(PEI) + "{\n", "glue")
+    for acc in ("line", "kind"):
+        g = mp.impl_fn(PEI, acc)
+        g.ret("ret")
+        g.contracted = True
+        g.props_all = ["C05"]
+        g.props_safety = ["C13"]
+        g.contract("    ensures /*@L:parse_error_%s_accessor_returns_its_field:C05*/ ret == self.%s," % (acc, acc))
+        u.emit(g)
+    u.raw("}\n", "glue")
 
     P13 = ["C13"]
     # ---------------- is_newline ----------------
